@@ -45,6 +45,9 @@ Proof.
 Qed.
 
 
+  Lemma dset_nil_eq k v : dset k v (@nil (str * V)) = [(k, v)].
+  Proof. reflexivity. Qed.
+
   Lemma dget_ddel_same k d : dget k (ddel k d) = None.
   Proof.
     unfold ddel. induction d as [|[k' v] r IH]; simpl; [reflexivity|].
